@@ -86,6 +86,16 @@ Theorem C20_order_by_id : forall (A : Type) (subm done : list (Z * A)),
 Proof. exact order_by_id_restores. Qed.
 Print Assumptions C20_order_by_id.
 
+(* the ids must be compared as INTEGERS: with the decimal strings of the job numbers 9, 10, 11 (4th call of a 3-member
+   ensemble, or any ensemble of more than 10 members) the same sort returns the members in the order 1, 2, 0 *)
+Theorem C20_string_ids_refuted :
+  let subm := [([9], 0); ([1; 0], 1); ([1; 1], 2)] in
+  map (fun p => digits_value (fst p)) subm = [9; 10; 11]
+  /\ map snd (order_by_digits subm) = [1; 2; 0]
+  /\ map snd (order_by_id (map (fun p => (Z.of_nat (digits_value (fst p)), snd p)) subm)) = [0; 1; 2].
+Proof. exact string_ids_witness. Qed.
+Print Assumptions C20_string_ids_refuted.
+
 (* ---- today's code (F19) ---- *)
 (* one candidate and k > 1 - the first finished job of an online selection - raises; so does selection without
    replacement once fewer candidates than k are left *)
